@@ -318,8 +318,26 @@ def _infer_hint_factory_collections_abc(cls: type) -> Optional[object]:
     #
     # Further detection is warranted to disambiguate this edge case.
 
-    # Set of the names of all methods bound to this class.
-    cls_method_names = cls_method_name_to_method.keys()
+    # Set of the names of all methods bound to this class, intentionally
+    # excluding methods defined *ONLY* by the metaclass of this class. Instances
+    # of this class do *NOT* inherit methods from that metaclass and thus do
+    # *NOT* satisfy protocols that only this class itself satisfies. Although
+    # the dir() builtin typically omits metaclass attributes, metaclasses
+    # overriding the __dir__() dunder method may list them anyway: e.g.,
+    #     >>> from enum import Enum
+    #     >>> class MuhEnum(Enum): MEMBER = 1
+    #     >>> '__len__' in dir(MuhEnum)  # <-- "EnumType.__len__", actually
+    #     True
+    #     >>> len(MuhEnum.MEMBER)
+    #     TypeError: object of type 'MuhEnum' has no len()
+    cls_method_names = frozenset(
+        cls_method_name
+        for cls_method_name in cls_method_name_to_method
+        if any(
+            cls_method_name in cls_super.__dict__
+            for cls_super in cls.__mro__
+        )
+    )
 
     # Finite state machine (FSM) node currently visited by the search below.
     node_curr = _START_NODE
